@@ -548,6 +548,113 @@ fn op_latebound(case: &Value) -> Value {
     }
 }
 
+/// The events xform_resolve_late_bound_expr_kind meets, collected with the library's own traversal (names are the case-folded
+/// keys, hex): EN,name=kind;.. (a function, function block or program is entered: its variables and the kinds of their
+/// initializers), EX, AS,D | AS,N,name | AS,A | AS,S (an assignment starts: direct / named / array / structured target),
+/// AE, and one tag per expression node: LB,name (late bound), VN,name (a named variable), EV,name (an enumeration value
+/// without type prefix), X (anything else).
+struct ExprFacts {
+    out: Vec<String>,
+}
+
+impl ExprFacts {
+    fn enter(&mut self, vars: &[VarDecl]) {
+        let mut items = vec![];
+        for v in vars {
+            let (k, _, _) = init_kind(&v.initializer);
+            let name = match &v.identifier {
+                VariableIdentifier::Symbol(id) => Some(id.lower_case().to_string()),
+                VariableIdentifier::Direct(d) => d.name.as_ref().map(|n| n.lower_case().to_string()),
+            };
+            if let Some(n) = name {
+                items.push(format!("{}={}", hx(&n), k));
+            }
+        }
+        self.out.push(format!("EN,{}", items.join(";")));
+    }
+}
+
+impl Visitor<()> for ExprFacts {
+    type Value = ();
+
+    fn visit_function_declaration(&mut self, node: &FunctionDeclaration) -> Result<(), ()> {
+        self.enter(&node.variables);
+        let r = node.recurse_visit(self);
+        self.out.push("EX".to_string());
+        r
+    }
+    fn visit_function_block_declaration(&mut self, node: &FunctionBlockDeclaration) -> Result<(), ()> {
+        self.enter(&node.variables);
+        let r = node.recurse_visit(self);
+        self.out.push("EX".to_string());
+        r
+    }
+    fn visit_program_declaration(&mut self, node: &ProgramDeclaration) -> Result<(), ()> {
+        self.enter(&node.variables);
+        let r = node.recurse_visit(self);
+        self.out.push("EX".to_string());
+        r
+    }
+    fn visit_assignment(&mut self, node: &ironplc_dsl::textual::Assignment) -> Result<(), ()> {
+        use ironplc_dsl::textual::{SymbolicVariableKind, Variable};
+        let t = match &node.target {
+            Variable::Direct(_) => "AS,D".to_string(),
+            Variable::Symbolic(SymbolicVariableKind::Named(n)) => format!("AS,N,{}", hx(&n.name.lower_case().to_string())),
+            Variable::Symbolic(SymbolicVariableKind::Array(_)) => "AS,A".to_string(),
+            Variable::Symbolic(SymbolicVariableKind::Structured(_)) => "AS,S".to_string(),
+        };
+        self.out.push(t);
+        let r = node.recurse_visit(self);
+        self.out.push("AE".to_string());
+        r
+    }
+    fn visit_expr_kind(&mut self, node: &ironplc_dsl::textual::ExprKind) -> Result<(), ()> {
+        use ironplc_dsl::textual::{ExprKind, SymbolicVariableKind, Variable};
+        let tag = match node {
+            ExprKind::LateBound(lb) => format!("LB,{}", hx(&lb.name.lower_case().to_string())),
+            ExprKind::Variable(Variable::Symbolic(SymbolicVariableKind::Named(n))) => format!("VN,{}", hx(&n.name.lower_case().to_string())),
+            ExprKind::EnumeratedValue(ev) if ev.type_name.is_none() => format!("EV,{}", hx(&ev.value.lower_case().to_string())),
+            _ => "X".to_string(),
+        };
+        self.out.push(tag);
+        node.recurse_visit(self)
+    }
+}
+
+/// parse every file, join the libraries, apply the two earlier transformations, emit the events; apply
+/// xform_resolve_late_bound_expr_kind and emit the events of its result (or its diagnostics)
+fn op_exprkind(case: &Value) -> Value {
+    let (libs, errs) = parse_files(case);
+    let mut library = Library::new();
+    for (_, l) in libs.iter() {
+        library = library.extend(l.clone());
+    }
+    for x in ["xform_toposort_declarations", "xform_resolve_late_bound_data_decl"] {
+        match ironplc_analyzer::verif_hooks::xform(x, library) {
+            Some(Ok(l)) => library = l,
+            Some(Err(ds)) => {
+                let ds: Vec<Value> = ds.iter().map(diag_json).collect();
+                return json!({"parse_errs": errs, "earlier_xform": x, "xform_diags": ds});
+            }
+            None => return json!({"harness_error": format!("unknown transformation {}", x)}),
+        }
+    }
+    let mut before = ExprFacts { out: vec![] };
+    let _ = before.walk(&library);
+    match ironplc_analyzer::verif_hooks::xform("xform_resolve_late_bound_expr_kind", library) {
+        Some(Ok(l)) => {
+            let mut after = ExprFacts { out: vec![] };
+            let _ = after.walk(&l);
+            json!({"parse_errs": errs, "before": before.out, "after": after.out})
+        }
+        Some(Err(ds)) => {
+            let ds: Vec<Value> = ds.iter().map(diag_json).collect();
+            json!({"parse_errs": errs, "before": before.out, "diags": ds})
+        }
+        None => json!({"harness_error": "unknown transformation"}),
+    }
+}
+
 const FACT_RULES: [&str; 8] = [
     "rule_var_decl_const_initialized",
     "rule_var_decl_const_not_fb",
@@ -751,6 +858,7 @@ fn run_case(case: &Value) -> Value {
         "tok" => op_tok(case),
         "parse" => op_parse(case),
         "analyze" => op_analyze(case),
+        "exprkind" => op_exprkind(case),
         "project" => op_project(case),
         "events" => op_events(case),
         "facts" => op_facts(case),
